@@ -433,41 +433,83 @@ def rule_cell_equations(ctx):
             else:
                 ctx.violation(key, site(nm, 0), "after an unmatched M cell the new cell is %s" % repr(f)[:160])
             continue
-        if win is None:
+        def judge(f, win, key=key, ge_boundary=ge_boundary, gt_consec=gt_consec):
+            matched = f.get("matched")
+            cbf = f.get("consecutive_bonus")
+            scf = f.get("score")
+            match_expr, st = win
+            # which consecutive bonus does this path use?
+            cb_used = bonus if (ge_boundary and gt_consec) else consec
+            want_match_sum = add(mscore, ("call", "max", tuple(sorted((cb_used, bonus), key=repr))))
+            if cb_used == bonus:
+                alt = add(mscore, ("call", "max", (bonus, bonus)))
+            else:
+                alt = want_match_sum
+            if not (same_sum(match_expr, want_match_sum) or same_sum(match_expr, alt)):
+                ctx.violation(key + "|match-sum", site(nm, 0), "the value of continuing the run is %s; the recurrence says M + max(consecutive bonus, bonus) with consecutive bonus = %s on this path" % (repr(match_expr)[:120], "bonus (a boundary bonus above the run's)" if cb_used == bonus else "max(run's bonus, BONUS_CONSECUTIVE)"))
+                return
+            if matched == ("const", 1):
+                if not st <= {"gt"}:
+                    ctx.violation(key + "|strict", site(nm, 0), "the run is continued (matched = true) also when restarting it scores the same or better (%s)" % sorted(st))
+                elif cbf != cb_used:
+                    ctx.violation(key + "|carried-bonus", site(nm, 0), "a continued run must carry its consecutive bonus (%s), the cell stores %s" % (repr(cb_used)[:70], repr(cbf)[:70]))
+                elif not same_sum(scf, add(match_expr, SM)):
+                    ctx.violation(key + "|score", site(nm, 0), "continued run scores %s" % repr(scf)[:100])
+                else:
+                    ctx.ok(site(nm, 0), "run continues (strictly better): score = M + max(consecutive, bonus) + SCORE_MATCH, consecutive bonus carried (%s)" % ("boundary bonus" if cb_used == bonus else "run's bonus"))
+            elif matched == ("const", 0):
+                if not st <= {"lt", "eq"}:
+                    ctx.violation(key + "|strict", site(nm, 0), "the run is restarted although continuing it scores more")
+                elif cbf != bonus:
+                    ctx.violation(key + "|carried-bonus", site(nm, 0),
+                                  "a run that restarts after a gap must carry the bonus of its own first character; the cell stores %s — the following consecutive characters inherit a bonus that belongs to the discarded alignment (scores above the true optimum or below the recurrence)" % repr(cbf)[:80])
+                elif not same_sum(scf, add(pscore, bonus, SM)):
+                    ctx.violation(key + "|score", site(nm, 0), "restarted run scores %s" % repr(scf)[:100])
+                else:
+                    ctx.ok(site(nm, 0), "run restarts (gap wins or ties): score = P + bonus + SCORE_MATCH, carries its own bonus")
+            else:
+                ctx.fail_closed("next_m_cell: matched flag %s not constant on a path" % repr(matched))
+
+        def is_skip(x):
+            return same_sum(x, skip_sum)
+        # branch-free forms: the comparison of the two candidates sits inside the fields (`max(a, b)`, `a > b` as a
+        # value).  Such a field is a function of the ordering of the two candidates: split on it and judge each case.
+        cands = [win[0]] if win is not None else []
+        for v in f.values():
+            for x in walk(v):
+                pr = None
+                if x[0] == "call" and x[1] in ("max", "min") and len(x[2]) == 2:
+                    pr = (x[2][0], x[2][1])
+                elif x[0] == "bin" and x[1] in ("Gt", "Ge", "Lt", "Le", "Eq", "Ne"):
+                    pr = (x[2], x[3])
+                if pr:
+                    for m_, s_ in (pr, pr[::-1]):
+                        if is_skip(s_) and mscore in flat_add(m_):
+                            cands.append(m_)
+        if not cands or any(repr(c_) != repr(cands[0]) for c_ in cands):
             ctx.fail_closed("next_m_cell: a path does not compare continuing the run with restarting it")
             continue
-        match_expr, st = win
-        # which consecutive bonus does this path use?
-        cb_used = bonus if (ge_boundary and gt_consec) else consec
-        want_match_sum = add(mscore, ("call", "max", tuple(sorted((cb_used, bonus), key=repr))))
-        if cb_used == bonus:
-            alt = add(mscore, ("call", "max", (bonus, bonus)))
-        else:
-            alt = want_match_sum
-        if not (same_sum(match_expr, want_match_sum) or same_sum(match_expr, alt)):
-            ctx.violation(key + "|match-sum", site(nm, 0), "the value of continuing the run is %s; the recurrence says M + max(consecutive bonus, bonus) with consecutive bonus = %s on this path" % (repr(match_expr)[:120], "bonus (a boundary bonus above the run's)" if cb_used == bonus else "max(run's bonus, BONUS_CONSECUTIVE)"))
-            continue
-        if matched == ("const", 1):
-            if not st <= {"gt"}:
-                ctx.violation(key + "|strict", site(nm, 0), "the run is continued (matched = true) also when restarting it scores the same or better (%s)" % sorted(st))
-            elif cbf != cb_used:
-                ctx.violation(key + "|carried-bonus", site(nm, 0), "a continued run must carry its consecutive bonus (%s), the cell stores %s" % (repr(cb_used)[:70], repr(cbf)[:70]))
-            elif not same_sum(scf, add(match_expr, SM)):
-                ctx.violation(key + "|score", site(nm, 0), "continued run scores %s" % repr(scf)[:100])
-            else:
-                ctx.ok(site(nm, 0), "run continues (strictly better): score = M + max(consecutive, bonus) + SCORE_MATCH, consecutive bonus carried (%s)" % ("boundary bonus" if cb_used == bonus else "run's bonus"))
-        elif matched == ("const", 0):
-            if not st <= {"lt", "eq"}:
-                ctx.violation(key + "|strict", site(nm, 0), "the run is restarted although continuing it scores more")
-            elif cbf != bonus:
-                ctx.violation(key + "|carried-bonus", site(nm, 0),
-                              "a run that restarts after a gap must carry the bonus of its own first character; the cell stores %s — the following consecutive characters inherit a bonus that belongs to the discarded alignment (scores above the true optimum or below the recurrence)" % repr(cbf)[:80])
-            elif not same_sum(scf, add(pscore, bonus, SM)):
-                ctx.violation(key + "|score", site(nm, 0), "restarted run scores %s" % repr(scf)[:100])
-            else:
-                ctx.ok(site(nm, 0), "run restarts (gap wins or ties): score = P + bonus + SCORE_MATCH, carries its own bonus")
-        else:
-            ctx.fail_closed("next_m_cell: matched flag %s not constant on a path" % repr(matched))
+        m_e = cands[0]
+
+        def under(e, o):
+            if not isinstance(e, tuple) or not e:
+                return e
+            if e[0] == "call" and e[1] in ("max", "min") and len(e[2]) == 2 and any(repr(x) == repr(m_e) for x in e[2]) and any(is_skip(x) for x in e[2]):
+                other = [x for x in e[2] if repr(x) != repr(m_e)][0]
+                big = m_e if o == "gt" else other
+                small = other if o == "gt" else m_e
+                return big if e[1] == "max" else small
+            if e[0] == "bin" and e[1] in ("Gt", "Ge", "Lt", "Le", "Eq", "Ne") and ((repr(e[2]) == repr(m_e) and is_skip(e[3])) or (repr(e[3]) == repr(m_e) and is_skip(e[2]))):
+                oo = o if repr(e[2]) == repr(m_e) else flip(o)
+                val = {"Gt": oo == "gt", "Ge": oo in ("gt", "eq"), "Lt": oo == "lt", "Le": oo in ("lt", "eq"), "Eq": oo == "eq", "Ne": oo != "eq"}[e[1]]
+                return ("const", int(val))
+            return tuple(under(x, o) if isinstance(x, tuple) else x for x in e)
+        for o in ("gt", "eq", "lt"):
+            if win is not None and o not in win[1]:
+                continue
+            f2 = {k_: canon(under(v_, o)) if isinstance(v_, tuple) else v_ for k_, v_ in f.items()}
+            k2 = "fuzzy_optimal::next_m_cell|%s" % ("match-wins" if f2.get("matched") == ("const", 1) else "skip-wins")
+            judge(f2, (m_e, {o}), key=k2)
 
 
 def rule_slab_choice(ctx):
